@@ -39,6 +39,10 @@ def clog2(n):
 def letters_for_cfg(cfg):
     dw, g = cfg["dw"], cfg["g"]
     ratio = dw // g
+    if cfg.get("alphabet") == "scopes":
+        # scope bookkeeping needs longer histories (re-entering a name / an index that is already open)
+        return [("cluster", "a"), ("cluster", "k"), ("index", 0), ("index", 1), ("leave",), ("add", "r", 1, None),
+                ("add", "s", dw + 1, None)]
     L = []
     widths = [0, 1, dw, dw + 1, 3 * dw]
     for name in ("a", "b"):
@@ -190,6 +194,7 @@ def configs(tier):
     geos = [dict(aw=3, dw=8, g=8), dict(aw=2, dw=16, g=8), dict(aw=3, dw=32, g=8), dict(aw=3, dw=32, g=16), dict(aw=4, dw=16, g=16)]
     depth = 3 if tier == "quick" else 4
     out = [dict(g_, depth=depth + (1 if (tier == "quick" and k in (1, 3)) else 0)) for k, g_ in enumerate(geos)]
+    out.append(dict(aw=4, dw=8, g=8, alphabet="scopes", depth=6 if tier == "quick" else 8))
     if tier != "quick":
         out += [dict(aw=2, dw=8, g=8, depth=5), dict(aw=3, dw=64, g=16, depth=3), dict(aw=4, dw=8, g=4, depth=3)]
     return out
